@@ -420,6 +420,42 @@ E2E_COUNTS['thorough']['head'] = 2800
 E2E_RULES['head'] = ('generated histories checked out on a branch, then one of seven scenario families: the last 1-3 commits of the checked-out branch only add a file that the run removes (every surviving commit keeps its id); the same with a --branch-rename of the checked-out branch; a partial run (--refs) that excludes the checked-out branch combined with a --branch-rename whose prefix the checked-out branch also matches; chained renames (x/x/foo and checked-out x/foo with x/:); a checked-out orphan branch all of whose commits are pruned; the generated option set on an attached and on a detached HEAD. After the run: HEAD must be where the Lean model of the HEAD block (headTarget, fed with HEAD before, the refs after, the rename and the branch refs named in the filtered stream) says, must name an existing branch, git status must be clean and the index must equal the tree of HEAD. Non-trivial: the run succeeds.')
 
 
+E2E_COUNTS['quick']['contract'] = 100
+E2E_COUNTS['thorough']['contract'] = 3000
+
+
+@runner
+def contract(ctx):
+    """validation of the importer contract (trusted base of C01/C02/C03/C08/C09): real git fast-import vs Import.importBytes"""
+    from . import e2e
+    with C.BuildLock():
+        ok, out = C.cli_build()
+    if not ok:
+        raise C.Infra('the CLI of /repo does not build')
+    t0 = time.time()
+    n = E2E_COUNTS[ctx.tier]['contract']
+    cases = e2e.gen_cases('filter', ctx.seed * 13 + 5, n)
+    results = e2e.run_pool(e2e.contract_case, cases)
+    dist, bad = {}, []
+    for r, c in zip(results, cases):
+        for k, v in r['dist'].items():
+            dist[k] = dist.get(k, 0) + v
+        if r.get('error'):
+            dist['harness-errors'] = dist.get('harness-errors', 0) + 1
+            ctx.notes.append(f"contract harness error: {r['error'][:200]}")
+        for (_, msg) in r['failures']:
+            bad.append((c, msg))
+    ctx.parts.append(dict(name='contract(git fast-import vs Import.lean)', evaluations=len(cases), distinct_nontrivial=dist.get('streams-compared-source', 0) + dist.get('streams-compared-filtered', 0),
+                          rule='validation of the trusted base, not of the property: every generated export stream, and the stream the tool writes for it under --dry-run (when it does not refer to pre-existing objects), is imported into a fresh repository by git fast-import 2.39.5 and by the contract model Import.importBytes; per commit the parents, the message and the full tree (path, mode, blob id = SHA-1 of the model\'s content), and all refs including peeled annotated tags, must agree; a stream one side rejects must be rejected by the other. Non-trivial: a stream both accept.',
+                          samples=[{'cli': cases[0]['cli'], 'n_commits': cases[0]['n_commits']}] if cases else [],
+                          distribution=dist, wall_s=round(time.time() - t0, 1), contract_mismatches=len(bad)))
+    for c, msg in bad[:2]:
+        path = C.write_replay(ctx.pid, 'correspondence', dict(runner='contract', case_id=c['id'], cli=c['cli'], stream_hex=c['stream_hex'], aux=c['aux'],
+                                                             correspondence='the importer contract Frrs/Import.lean and git fast-import disagree on this stream: the theorems that rest on the contract are not about this git',
+                                                             detail=msg, theorems_no_longer_about_the_code=C.props_theorems(ctx.pid)))
+        ctx.violations.append((path, True, 'importer contract and git fast-import disagree: ' + msg[:200]))
+
+
 @runner
 def e2e_head(ctx):
     _e2e(ctx, ['head'], fn_name='head_case', gen_mode='filter', label='head')
